@@ -2,6 +2,7 @@ import GoaktVerif.Model.C20.Queue
 import GoaktVerif.Model.C20.Stream
 import GoaktVerif.Spec.C20
 import GoaktVerif.Lemmas.C20Stream
+import GoaktVerif.Lemmas.C20QueueFinal
 
 /-
 C20 — "Every event published on a topic is delivered exactly once to each subscriber that was subscribed and
@@ -11,20 +12,22 @@ had unsubscribed or been removed. Concurrent publishing and consumption never lo
 Two layers:
 
 * the subscriber's message queue (`internal/queue/queue.go`, model `Model.C20.Queue`, small-step, one
-  transition per atomic operation, any number of threads, any schedule, any behaviour of `sync.Pool`);
+  transition per atomic operation, any number of threads, any schedule).  `Mode.fresh` is the code as it is
+  since fix c76ec1e (nodes are never recycled); `Mode.pooled` is the code before it (kept for the refutation);
 * the stream bookkeeping (`eventstream/eventstream.go`, model `Model.C20.Stream`, sequential).
 -/
 namespace GoaktVerif.C20
 open GoaktVerif.Model.C20 GoaktVerif.Spec.C20
 open GoaktVerif.Model.C20.Queue (Mode Op Cfg runP init allDone seqDrain)
 
-/-- The queue refines a FIFO: under every schedule (with every resolution of the pool's choices) the log of
-linearization events is a FIFO history, and once no operation is in progress the values sequential `Dequeue`s
-return are exactly the content of the abstract FIFO (nothing lost, nothing duplicated, in order). -/
+/-- The queue refines a FIFO: under every schedule, with any number of enqueuers and dequeuers (and every
+resolution of the pool's choices), the log of linearization events — one per operation, emitted by a step of the
+operation itself — is a FIFO history, and the values sequential `Dequeue`s would return from the configuration
+reached are exactly the content of the abstract FIFO (nothing lost, nothing duplicated, in order). -/
 def QueueRefinesFifo (mode : Mode) : Prop :=
   ∀ (progs : List (List Op)) (s : List (Nat × Option Nat)),
     ∃ q, replay ((runP (init mode progs) s).lin.reverse.map (·.2)) [] = some q ∧
-      (allDone (runP (init mode progs) s) = true → (seqDrain (q.length + 1) (runP (init mode progs) s)).1 = q)
+      (seqDrain (q.length + 1) (runP (init mode progs) s)).1 = q
 
 /-- The stream delivers, for every operation sequence, to every `Iterator()` call exactly the messages
 published since the previous call while the subscriber was subscribed to the topic and active — in publish
@@ -32,14 +35,34 @@ order, once, and nothing after unsubscribe / remove / shutdown / close. -/
 def StreamDelivers : Prop :=
   ∀ ops : List Stream.Op, itOutputs ops (Stream.run Stream.init ops) = specRun [] ops
 
-/-- the full property, for the code as it is (pooled nodes) -/
-def C20_full : Prop := QueueRefinesFifo .pooled ∧ StreamDelivers
-
-/-! ### the stream layer holds -/
+/-- the full property, for the code as it is -/
+def C20_full : Prop := QueueRefinesFifo .fresh ∧ StreamDelivers
 
 theorem C20_stream_holds : StreamDelivers := fun ops => stream_refines ops _ _ rel_init
 
-/-! ### the queue layer is false with recycled nodes: witness -/
+/-- all schedules, any number of threads, any programs: inductive invariant `Inv` (Lemmas/C20QueueInv.lean),
+preserved by every step (`inv_step`), read out by `inv_observable` -/
+theorem C20_queue_holds : QueueRefinesFifo .fresh :=
+  fun progs s => inv_observable (inv_runP s _ (inv_init progs))
+
+theorem C20_holds : C20_full := ⟨C20_queue_holds, C20_stream_holds⟩
+
+/-- In particular nothing is lost, duplicated or reordered: at every reachable configuration the values
+enqueued so far (in linearization order) are the values dequeued so far followed by what sequential `Dequeue`s
+would still return. -/
+theorem C20_conservation (progs : List (List Op)) (s : List (Nat × Option Nat)) :
+    ∃ q, (seqDrain (q.length + 1) (runP (init .fresh progs) s)).1 = q ∧
+      enqVals ((runP (init .fresh progs) s).lin.reverse.map (·.2)) =
+        deqVals ((runP (init .fresh progs) s).lin.reverse.map (·.2)) ++ q := by
+  obtain ⟨q, h1, h2⟩ := C20_queue_holds progs s
+  exact ⟨q, h2, by simpa using replay_conservation _ [] q h1⟩
+
+/-- non-vacuity: a run in which both layers of the invariant are exercised (two publishers, one drainer) -/
+example : (runP (init .fresh [[.sig 1], [.sig 2], [.iter]])
+    ([0, 0, 1, 1, 1, 1, 1, 1, 2, 2, 2, 2, 0, 2, 0, 0, 0, 0, 0, 0].map (·, none))).lin.reverse.map (·.2) =
+    [.enq 2, .deq (some 2), .enq 1] := by decide
+
+/-! ### the queue as it was before fix c76ec1e (nodes recycled through `sync.Pool`) does not refine a FIFO -/
 
 /-- two publishers, one drainer (subscriber API only): `signal(1) ∥ signal(2) ∥ Iterator()` -/
 def witnessProgs : List (List Op) := [[.sig 1], [.sig 2], [.iter]]
@@ -50,26 +73,23 @@ event 1 onto the dead node.  All three calls return normally. -/
 def witnessSched : List (Nat × Option Nat) :=
   [0, 0, 1, 1, 1, 1, 1, 1, 2, 2, 2, 2, 0, 2, 0, 0, 0].map (·, none)
 
-theorem C20_queue_refuted : ¬ QueueRefinesFifo .pooled := by
+theorem C20_pooled_refuted : ¬ QueueRefinesFifo .pooled := by
   intro h
   obtain ⟨q, h1, h2⟩ := h witnessProgs witnessSched
   have e1 : replay ((runP (init .pooled witnessProgs) witnessSched).lin.reverse.map (·.2)) [] = some [1] := by decide
-  have e2 : allDone (runP (init .pooled witnessProgs) witnessSched) = true := by decide
   have e3 : (seqDrain 2 (runP (init .pooled witnessProgs) witnessSched)).1 = [] := by decide
   rw [e1] at h1
   cases h1
-  have h3 : (seqDrain 2 (runP (init .pooled witnessProgs) witnessSched)).1 = [1] := h2 e2
+  have h3 : (seqDrain 2 (runP (init .pooled witnessProgs) witnessSched)).1 = [1] := h2
   rw [e3] at h3
   cases h3
 
-/-- what the witness looks like from outside: every call returned, `signal(1)` returned normally, the drainer
+/-- what that witness looks like from outside: every call returned, `signal(1)` returned normally, the drainer
 received only event 2, the queue is empty, and `Length()` says 1 forever -/
-theorem C20_witness_outcome :
+theorem C20_pooled_witness_outcome :
     let c := runP (init .pooled witnessProgs) witnessSched
     allDone c = true ∧
     c.threads.map (·.hist) = [[(.sig 1, .ok)], [(.sig 2, .ok)], [(.iter, .items [2] false)]] ∧
     (seqDrain 5 c).1 = [] ∧ c.len = 1 := by decide
-
-theorem C20_refuted : ¬ C20_full := fun h => C20_queue_refuted h.1
 
 end GoaktVerif.C20
